@@ -214,6 +214,10 @@ func (c *Ctx) Sample(scope string, v any) {
 	}
 	c.sampleN[scope]++
 	v = JSONSafe(v)
+	// a sample shows what a case looks like; a ladder case with 50 000 records is shown by its head
+	if b, err := json.Marshal(v); err == nil && len(b) > 3000 {
+		v = string(b[:3000]) + "… (truncated, " + fmt.Sprint(len(b)) + " bytes)"
+	}
 	c.R.Samples = append(c.R.Samples, map[string]any{"scope": scope, "case": v})
 }
 
